@@ -140,6 +140,10 @@ EXTRA = [
         {"name": "home", "type": {"type": "record", "name": "Addr", "fields": [{"name": "street", "type": "string"}, {"name": "tags", "type": {"type": "array", "items": "string"}}]}},
         {"name": "work", "type": "Addr"}, {"name": "others", "type": {"type": "array", "items": "Addr"}}, {"name": "by_name", "type": {"type": "map", "values": "Addr"}}]},
     ["null"],
+    # the null branch written in object form
+    {"type": "record", "name": "ObjNull", "fields": [{"name": "u", "type": [{"type": "null"}, "string"]}, {"name": "v", "type": ["int", {"type": "null", "note": "n"}], "default": 1},
+                                                   {"name": "w", "type": {"type": "array", "items": [{"type": "null"}, "long"]}}]},
+    [{"type": "null"}, "double"],
     {"type": "record", "name": "BytesDefaults", "fields": [
         {"name": "k", "type": "int"}, {"name": "b", "type": "bytes", "default": "\u00ff\u0001"},
         {"name": "f", "type": {"type": "fixed", "name": "F2", "size": 2}, "default": "ab"}]},
